@@ -75,7 +75,9 @@ def main(tier):
             for _, sp in named_specs(tree):
                 if sp["t"] == "ln" and not sp["affine"]:
                     sp["affine"], sp["bias"] = True, True  # F28 (C08): exercised by the directed case below
-        cases.append({"seed": ck.seed * 1000 + i, "dtype": dtype, "weights": w, "activations": a, "tree": tree, "input": inp, "calibrate": cal, "freeze": rng.random() < 0.75,
+        frz = rng.random() < 0.75
+        cases.append({"seed": ck.seed * 1000 + i, "dtype": dtype, "weights": w, "activations": a, "tree": tree, "input": inp, "calibrate": cal, "freeze": frz,
+                      "optimizer": "clip" if frz and rng.random() < 0.25 else None, "streamline": cal and rng.random() < 0.4,
                       "load_from": [rng.choice(["pickle", "weights_only", "safetensors"])] if tier == "quick" else ["pickle", "weights_only", "safetensors"], "second_cycle": rng.random() < 0.5})
     # directed (F28): a calibrated half-precision model with a parameterless LayerNorm, reloaded
     cases.append({"seed": 21, "dtype": "float16", "weights": "qint4", "activations": "qfloat8", "calibrate": True, "freeze": True, "input": [2, 32], "load_from": ["pickle"], "second_cycle": False, "directed": "F28",
@@ -87,7 +89,7 @@ def main(tier):
     codec_items = []
     load_items = {"qbytes": [], "qbits": []}
     for c, r in zip(cases, res):
-        cfg = {k: c[k] for k in ("seed", "dtype", "weights", "activations", "calibrate", "freeze", "input", "tree")}
+        cfg = {k: c.get(k) for k in ("seed", "dtype", "weights", "activations", "calibrate", "freeze", "input", "tree", "optimizer", "streamline")}
         if not r["ok"]:
             ck.violation(f"building the saved model raised {r['exn']}: {r.get('msg')}", {"case": cfg, "exception": r})
             continue
